@@ -38,7 +38,20 @@ fn slice(tier: Tier) -> Vec<(String, PProblem)> {
         };
         let candidates: Vec<PProblem> = problems.into_iter().filter(|p| p.jobs.len() >= 3).collect();
         let step = (candidates.len() / per.max(1)).max(1);
-        out.extend(candidates.into_iter().step_by(step).take(per).map(|p| (name.to_string(), p)));
+        let picked: Vec<PProblem> = candidates.into_iter().step_by(step).take(per).collect();
+        // goals without a job-count layer in front (cost only, tours first): the leading cost component of an insertion
+        // is then positive (fixed cost of a new tour), which the pruning bound of the evaluator has to respect
+        if name == "core" {
+            for (oi, objectives) in [serde_json::json!([{"type": "minimize-cost"}]), serde_json::json!([{"type": "minimize-tours"}, {"type": "minimize-cost"}])].into_iter().enumerate() {
+                for p in picked.iter() {
+                    let mut q = p.clone();
+                    q.name = format!("{}/goal{oi}", q.name);
+                    q.objectives = Some(objectives.clone());
+                    out.push(("core-goals".to_string(), q));
+                }
+            }
+        }
+        out.extend(picked.into_iter().map(|p| (name.to_string(), p)));
     }
     out
 }
@@ -54,6 +67,14 @@ fn job_id(job: &Job) -> String {
 /// Evaluation contexts: a root construction with k jobs taken out again (they become `required`).
 fn contexts(world: &World) -> Vec<(String, InsertionContext)> {
     let mut out = vec![];
+    // nothing assigned yet: every job against the empty tours of the fleet, in the given and in the reversed job order
+    for reversed in [false, true] {
+        let mut ctx = InsertionContext::new(world.core.clone(), world.env.clone());
+        if reversed {
+            ctx.solution.required.reverse();
+        }
+        out.push((format!("empty/{}", if reversed { "reversed" } else { "given" }), ctx));
+    }
     for (root_name, root) in world.roots().into_iter().take(3) {
         let assigned: Vec<Job> = root.solution.routes.iter().flat_map(|r| r.route().tour.jobs().cloned().collect::<Vec<_>>()).collect();
         for k in 1..=3usize.min(assigned.len()) {
